@@ -128,7 +128,7 @@ pub fn profile_for(prop: &str) -> Profile {
         }
         "C14" | "C15" | "C16" => {
             p.name = "c14_c16";
-            p.w = [18, 4, 8, 2, 5, 5, 3, 10, 4, 6, 8, 3, 14, 1, 14, 1, 0, 0, 0, 0];
+            p.w = [18, 4, 8, 2, 5, 5, 3, 10, 4, 6, 8, 3, 14, 1, 14, 1, 3, 0, 0, 0];
             p.env = [16, 2, 1, 3, 0, 0, 2, 0];
             p.forks = vec![("c15_split", 3), ("c15_relational", 3)];
         }
@@ -139,7 +139,7 @@ pub fn profile_for(prop: &str) -> Profile {
         }
         "C18" => {
             p.name = "c18";
-            p.w = [10, 10, 5, 5, 3, 3, 2, 12, 6, 14, 18, 5, 1, 1, 2, 0, 0, 0, 2, 0];
+            p.w = [10, 10, 5, 5, 3, 3, 2, 12, 6, 14, 18, 5, 1, 1, 2, 0, 0, 2, 2, 0];
             p.token_world_pct = 50;
             p.tx_fault_pct = 20;
         }
@@ -582,6 +582,63 @@ impl Gen {
         Decimal::from_str(*self.rng.pick(&xs)).unwrap()
     }
 
+    /// the owner of one contract sends its current configuration again (all values taken from
+    /// the contract's own Config answer), with a random subset of the optional fields present
+    fn resend_config_op(&mut self, sim: &Sim) -> Option<Op> {
+        let mut some = |r: &mut Rng, v: &str| if r.chance(2, 3) { Some(v.to_string()) } else { None };
+        match self.rng.below(3) {
+            0 => {
+                let r = sim.obs.reward.as_ref()?;
+                let c = &r.config;
+                let owner = sim.obs.owners.get(REWARD).map(|o| o.0.clone()).unwrap_or(OWNER.into());
+                Some(raw(
+                    "reward_resend_config",
+                    &owner,
+                    REWARD,
+                    &basset::reward::ExecuteMsg::UpdateConfig { hub_contract: some(&mut self.rng, &c.hub_contract), reward_denom: some(&mut self.rng, &c.reward_denom), swap_contract: some(&mut self.rng, &c.swap_contract) },
+                    vec![],
+                ))
+            }
+            1 => {
+                let d = sim.obs.dispatcher.as_ref()?;
+                Some(raw(
+                    "dispatcher_resend_config",
+                    &d.owner,
+                    DISPATCHER,
+                    &basset_sei_rewards_dispatcher::msg::ExecuteMsg::UpdateConfig {
+                        hub_contract: some(&mut self.rng, &d.hub_contract),
+                        bsei_reward_contract: some(&mut self.rng, &d.bsei_reward_contract),
+                        stsei_reward_denom: None,
+                        bsei_reward_denom: some(&mut self.rng, &d.bsei_reward_denom),
+                        krp_keeper_address: some(&mut self.rng, &d.krp_keeper_address),
+                        krp_keeper_rate: if self.rng.chance(2, 3) { Some(d.krp_keeper_rate) } else { None },
+                    },
+                    vec![],
+                ))
+            }
+            _ => {
+                let h = sim.obs.hub.as_ref()?;
+                let c = &h.config;
+                let mut opt = |r: &mut Rng, v: &Option<String>| if r.chance(1, 2) { v.clone() } else { None };
+                Some(raw(
+                    "hub_resend_config",
+                    &c.owner,
+                    HUB,
+                    &basset::hub::ExecuteMsg::UpdateConfig {
+                        rewards_dispatcher_contract: opt(&mut self.rng, &c.reward_dispatcher_contract),
+                        validators_registry_contract: opt(&mut self.rng, &c.validators_registry_contract),
+                        bsei_token_contract: None,
+                        stsei_token_contract: None,
+                        airdrop_registry_contract: opt(&mut self.rng, &c.airdrop_registry_contract),
+                        rewards_contract: None,
+                        update_reward_index_addr: None,
+                    },
+                    vec![],
+                ))
+            }
+        }
+    }
+
     /// owner configuration messages. Inside E3 unless the profile runs admin chaos.
     pub fn admin_op(&mut self, sim: &Sim) -> Op {
         let chaos = self.p.admin_chaos;
@@ -589,6 +646,12 @@ impl Gen {
         let hub_owner = sim.obs.hub.as_ref().map(|h| h.config.owner.clone()).unwrap_or(OWNER.into());
         let disp_owner = sim.obs.dispatcher.as_ref().map(|d| d.owner.clone()).unwrap_or(OWNER.into());
         let paused = sim.obs.hub.as_ref().and_then(|h| h.params.paused).unwrap_or(false);
+        // a repeated configuration message: the values already in force, any subset of fields
+        if self.rng.chance(1, if chaos { 8 } else { 4 }) {
+            if let Some(op) = self.resend_config_op(sim) {
+                return op;
+            }
+        }
         match self.rng.below(if chaos { 9 } else { 4 }) {
             0 | 1 => {
                 let ep = if opt(&mut self.rng) { Some(*self.rng.pick(&[1u64, 5, 30, 3600])) } else { None };
@@ -648,7 +711,8 @@ impl Gen {
                     &o,
                     REWARD,
                     &basset::reward::ExecuteMsg::UpdateConfig {
-                        hub_contract: if self.rng.chance(1, 2) { Some(HUB.into()) } else { None },
+                        // sometimes an address every Api rejects (too short / too long): the whole message must fail
+                        hub_contract: if self.rng.chance(1, 6) { Some(self.rng.pick(&["ab", "x", "aaaaaaaaaaaaaaaaaaaaaaaaaaaaaaaaaaaaaaaaaaaaaaaaaaaaaaaaaaaaaaaaaaaaaaaaaaaaaaaaaaaaaaaaaaaaaaaaaaaaaaaaaaaaaaaaaaaaaaaa"]).to_string()) } else if self.rng.chance(1, 2) { Some(HUB.into()) } else { None },
                         reward_denom: if self.rng.chance(1, 2) { Some(REWARD_DENOM.into()) } else { None },
                         swap_contract: if self.rng.chance(1, 2) { Some(SWAP.into()) } else { None },
                     },
